@@ -162,6 +162,16 @@ Theorem C02_validate_stream_sound : forall (fixed : bool) (writes : list bytes) 
 Proof. exact validate_stream_sound. Qed.
 Print Assumptions C02_validate_stream_sound.
 
+(* on the multi-thread runtime the FIFO hypothesis is not available: the validator then checks what the model
+   guarantees without it (C02_unordered_is_permutation) *)
+Theorem C02_validate_stream_unordered_sound :
+  forall (fixed : bool) (writes : list bytes) (reads : list (nat * bytes)),
+  validate_stream_unordered fixed writes reads = true ->
+  (exists ws', Permutation ws' writes /\ concat (map snd reads) = concat ws') /\
+  (fixed = true -> Forall (fun r => length (snd r) <= fst r) reads).
+Proof. exact validate_stream_unordered_sound. Qed.
+Print Assumptions C02_validate_stream_unordered_sound.
+
 Theorem C02_validate_dgram_sound : forall (sent : list (bytes * nat)) (got : list bytes),
   validate_dgram sent got = true ->
   (forall g, In g got -> In g (map fst sent)) /\
